@@ -355,6 +355,16 @@ pub fn gen_creds(rng: &mut Rng) -> Creds {
     } else {
         None
     };
+    // an XML key file as editors and other tools leave it: with a byte order mark, a blank line or an XML declaration in front
+    let kf = kf.map(|k| {
+        if k.first() == Some(&b'<') && !k.starts_with(b"<?xml") && rng.chance(1, 2) {
+            let mut out = rng.pick(&["\u{feff}", "\n", "  \r\n", "<?xml version=\"1.0\" encoding=\"utf-8\"?>\n", "\u{feff}<?xml version=\"1.0\"?>"]).as_bytes().to_vec();
+            out.extend(k);
+            out
+        } else {
+            k
+        }
+    });
     Creds { pw, kf }
 }
 
@@ -424,6 +434,7 @@ pub fn run_cred(ctx: &mut Ctx) {
             { let mut b = rng.bytes(70_003); b[0] = 0; b },     // delivered in pieces of 512 bytes by `make_key`
             { let mut b = rng.bytes(70_002); b[0] = 2; b },     // … of 4096 bytes
             { let mut b = rng.bytes(1_048_576 + 9); b[0] = 4; b }, // larger than 1 MiB (a photo as key file), in pieces of 4096 bytes
+            crate::keyop::large_keyfile(&mut rng, (1 << 24) + 5),   // larger than 16 MiB
         ];
         for (ci, kf) in classes.iter().enumerate() {
             for pw in [None, Some("demopass".to_string())] {
@@ -444,7 +455,7 @@ pub fn run_cred(ctx: &mut Ctx) {
                 };
                 for (data, origin) in [(Some(built), "builder"), (saved, "library-save")] {
                     let data = match data { Some(d) => d, None => continue };
-                    for n in [6u64, 12, 13, 14, 15, 5, 11] {
+                    for n in [6u64, 12, 13, 14, 15, 16, 17, 5, 11] {
                         let (pw2, kf2, what) = edit_creds_n(&mut rng, &creds, n);
                         let comp2 = ref_composite(&pw2, &kf2);
                         if comp2.as_deref() == Some(&comp[..]) {
@@ -494,7 +505,7 @@ pub fn run_cred(ctx: &mut Ctx) {
 }
 
 fn edit_creds(rng: &mut Rng, c: &Creds) -> (Option<String>, Option<Vec<u8>>, &'static str) {
-    let n = rng.below(16);
+    let n = rng.below(18);
     edit_creds_n(rng, c, n)
 }
 
@@ -504,6 +515,39 @@ fn edit_creds_n(rng: &mut Rng, c: &Creds, n: u64) -> (Option<String>, Option<Vec
     match n {
         15 => (pw, kf.map(|k| { let t = String::from_utf8_lossy(&k).to_string(); if t.contains("<Version>2.0</Version>") { t.replacen("<Version>2.0</Version>", *rng.pick(&["<Version>2.1</Version>", "<Version>2.00</Version>", "<Version>2.</Version>", "<Version>2.0 </Version>"]), 1).into_bytes() } else if t.contains("<Version>1.00</Version>") { t.replacen("<Version>1.00</Version>", "<Version>1.0</Version>", 1).into_bytes() } else { let mut k = k; k.insert(0, b' '); k } }).or(Some(vec![4u8; 32])), "keyfile-version-text-changed"),
         14 => (pw, kf.map(|k| { let t = String::from_utf8_lossy(&k).to_string(); if t.contains("=</Data>") { t.replacen("=</Data>", "</Data>", 1).into_bytes() } else if t.contains("</Data>") { t.replacen("</Data>", "=</Data>", 1).into_bytes() } else { let mut k = k; k.push(b'='); k } }).or(Some(vec![3u8; 32])), "keyfile-payload-padding-changed"),
+        16 => (pw, kf.map(|k| {
+            // a version-2 key file whose hex payload has a '+' where a '0' high nibble was ("+5" is what some integer parsers read as 5)
+            let t = String::from_utf8_lossy(&k).to_string();
+            match (t.contains("<Version>2.0</Version>"), t.find("<Data>"), t.find("</Data>")) {
+                (true, Some(a), Some(b)) if a + 6 < b => {
+                    let (start, hexs) = (a + 6, &t[a + 6..b]);
+                    match (0..hexs.len() / 2).find(|i| hexs.as_bytes()[2 * i] == b'0') {
+                        Some(i) => { let mut o = t.clone().into_bytes(); o[start + 2 * i] = b'+'; o }
+                        None => { let mut o = t.clone().into_bytes(); o[start] = b'+'; o }
+                    }
+                }
+                _ => { let mut k = k; k.push(b'+'); k }
+            }
+        }).or(Some(vec![5u8; 32])), "keyfile-hex-plus-sign"),
+        17 => (pw, kf.map(|k| {
+            // a version-1 key file whose last base64 symbol differs only in the bits that do not belong to the key
+            let t = String::from_utf8_lossy(&k).to_string();
+            const ALPHA: &[u8] = b"ABCDEFGHIJKLMNOPQRSTUVWXYZabcdefghijklmnopqrstuvwxyz0123456789+/";
+            match t.find("=</Data>") {
+                Some(p) if p > 0 => {
+                    let mut o = t.clone().into_bytes();
+                    let q = if o[p - 1] == b'=' { p - 2 } else { p - 1 };
+                    let pad2 = o[p - 1] == b'=';
+                    if let Some(idx) = ALPHA.iter().position(|c| *c == o[q]) {
+                        let mask = if pad2 { 15 } else { 3 };
+                        let n = (idx & !mask) | ((idx + 1 + rng.below(mask as u64) as usize) & mask);
+                        o[q] = ALPHA[n];
+                    }
+                    o
+                }
+                _ => { let mut k = k; k.push(b'A'); k }
+            }
+        }).or(Some(vec![6u8; 32])), "keyfile-base64-unused-bits"),
         12 => (pw, kf.map(|mut k| { if let Some(l) = k.last_mut() { *l ^= 1 << rng.below(8); } else { k.push(1); } k }).or(Some(vec![1u8; 33])), "keyfile-last-byte-flip"),
         13 => (pw, kf.map(|mut k| { if k.len() > 1 { k.pop(); } else { k.push(7); } k }).or(Some(vec![2u8; 31])), "keyfile-one-byte-shorter-or-longer"),
         0 => (pw.map(|p| format!("{} ", p)), kf, "trailing-blank"),
@@ -614,6 +658,23 @@ pub fn run_tamper(ctx: &mut Ctx) {
                     let what = if k % 2 == 0 { "block-content-edited-and-terminator-dropped" } else { "block-mac-edited-and-terminator-dropped" };
                     emit_read(ctx, "tamper", &d, Some(&comp), &key, json!({"mutation": what, "original": orig}), vec![format!("mutation:{}", what)], true);
                 }
+            }
+        }
+        // a block's tag replaced by a constant (a "not yet computed" tag: all zero, all ones) together with an edit of its content
+        for w in bounds.windows(2) {
+            let (a, b) = (w[0], w[1]);
+            if b <= a + 36 {
+                continue;
+            }
+            for fill in [0x00u8, 0xff, 0x01] {
+                let mut d = data.clone();
+                for x in &mut d[a..a + 32] {
+                    *x = fill;
+                }
+                let off = a + 36 + rng.below((b - a - 36) as u64) as usize;
+                d[off] ^= 1 << rng.below(8);
+                let what = format!("block-tag-filled-{:02x}-and-content-edited", fill);
+                emit_read(ctx, "tamper", &d, Some(&comp), &key, json!({"mutation": what, "original": orig}), vec![format!("mutation:{}", what)], true);
             }
         }
         for mi in 0..per_file {
